@@ -190,6 +190,10 @@ type found struct {
 	Log         []string `json:"log"`
 	LogHash     string   `json:"log_hash"`
 	Case        any      `json:"case,omitempty"`
+	Sequence    bool     `json:"sequence,omitempty"`
+	SeqWorker   int      `json:"sequence_worker,omitempty"`
+	SeqWorkers  int      `json:"sequence_workers,omitempty"`
+	SeqRuns     int      `json:"sequence_runs,omitempty"`
 }
 
 type workerResult struct {
@@ -408,6 +412,7 @@ func check(prop, tr string) int {
 	}
 	violations := 0
 	replayPath := ""
+	replayNote := ""
 	if first != nil {
 		violations = 1
 		_ = os.MkdirAll(filepath.Join(verifDir, "replays"), 0o755)
@@ -415,6 +420,20 @@ func check(prop, tr string) int {
 		b, _ := json.MarshalIndent(first, "", " ")
 		if err := os.WriteFile(replayPath, b, 0o644); err != nil {
 			die(2, "write replay: %v", err)
+		}
+		// the replay file must reproduce in a fresh process
+		if ok, _ := replayOnce(bin, prop, tr, replayPath); !ok {
+			first.Sequence = true
+			first.SeqWorker = int(first.RunIndex % uint64(nw))
+			first.SeqWorkers = nw
+			first.SeqRuns = int(first.RunIndex/uint64(nw)) + 1
+			b, _ := json.MarshalIndent(first, "", " ")
+			_ = os.WriteFile(replayPath, b, 0o644)
+			if ok, _ := replayOnce(bin, prop, tr, replayPath); ok {
+				replayNote = fmt.Sprintf("the minimised trace alone does not reproduce in a fresh process: the violation depends on state left behind by earlier runs of the same process; the replay file re-executes runs 0..%d of worker %d", first.SeqRuns-1, first.SeqWorker)
+			} else {
+				replayNote = "WARNING: the violation did not reproduce in a fresh process, neither from the minimised trace nor from the worker's run sequence"
+			}
 		}
 	}
 	cov := map[string]any{
@@ -478,6 +497,9 @@ func check(prop, tr string) int {
 	if first != nil {
 		fmt.Printf("violation: %s/%s: %s\n", first.Property, first.Clause, first.Detail)
 		fmt.Printf("minimised trace: %d choices (from %d, %d shrink runs)\n", len(first.Trace), first.OrigLen, first.ShrinkTests)
+		if replayNote != "" {
+			fmt.Println(replayNote)
+		}
 		fmt.Printf("VIOLATION property=%s replay=%s\n", prop, replayPath)
 		return 1
 	}
@@ -522,6 +544,24 @@ func tail(s string, n int) string {
 		lines = lines[len(lines)-n:]
 	}
 	return strings.Join(lines, "\n")
+}
+
+// replayOnce runs a replay file in a fresh worker process.
+func replayOnce(bin, prop, tr, path string) (bool, string) {
+	outPath := filepath.Join(scratch, "replay-check.json")
+	_ = os.Remove(outPath)
+	out, err := runWorker(bin, os.Environ(), "VERIF_PROP="+prop, "VERIF_TIER="+tr, "VERIF_REPLAY="+path, "VERIF_OUT="+outPath, "VERIF_KNOWN=", "GOMAXPROCS=2")
+	if err != nil {
+		return false, out
+	}
+	var r struct {
+		Reproduced bool `json:"reproduced"`
+	}
+	rb, _ := os.ReadFile(outPath)
+	if json.Unmarshal(rb, &r) != nil {
+		return false, "unreadable"
+	}
+	return r.Reproduced, ""
 }
 
 func replay(path string) int {
